@@ -150,28 +150,32 @@ func (*Thread).opAddInt
   props C08 C06
   requires wfStack(vm) && soff(vm) >= 2 && foff(vm) <= soff(vm) - 2 && isInt(second(vm)) && wfv(top(vm))
   ensures sp: soff(vm) == old(soff(vm)) - 1 && vm.fp == old(vm.fp) && vm.stack == old(vm.stack)
-  ensures same: top(vm) == old(fst(value.AddVal(second(vm), top(vm))))
+  ensures sameS: old(isSmall(second(vm))) ==> top(vm) == old(fst(value.AddVal(second(vm), top(vm))))
+  ensures sameB: old(isBig(second(vm))) ==> top(vm) == old(fst(value.AddVal(second(vm), top(vm))))
   ensures below: forall k int :: 0 <= k && k < soff(vm) - 1 ==> slot(vm, k) == old(slot(vm, k))
 
 func (*Thread).opSubtractInt
   props C08 C06
   requires wfStack(vm) && soff(vm) >= 2 && foff(vm) <= soff(vm) - 2 && isInt(second(vm)) && wfv(top(vm))
   ensures sp: soff(vm) == old(soff(vm)) - 1 && vm.fp == old(vm.fp) && vm.stack == old(vm.stack)
-  ensures same: top(vm) == old(fst(value.SubtractVal(second(vm), top(vm))))
+  ensures sameS: old(isSmall(second(vm))) ==> top(vm) == old(fst(value.SubtractVal(second(vm), top(vm))))
+  ensures sameB: old(isBig(second(vm))) ==> top(vm) == old(fst(value.SubtractVal(second(vm), top(vm))))
   ensures below: forall k int :: 0 <= k && k < soff(vm) - 1 ==> slot(vm, k) == old(slot(vm, k))
 
 func (*Thread).opMultiplyInt
   props C08 C06
   requires wfStack(vm) && soff(vm) >= 2 && foff(vm) <= soff(vm) - 2 && isInt(second(vm)) && wfv(top(vm))
   ensures sp: soff(vm) == old(soff(vm)) - 1 && vm.fp == old(vm.fp) && vm.stack == old(vm.stack)
-  ensures same: top(vm) == old(fst(value.MultiplyVal(second(vm), top(vm))))
+  ensures sameS: old(isSmall(second(vm))) ==> top(vm) == old(fst(value.MultiplyVal(second(vm), top(vm))))
+  ensures sameB: old(isBig(second(vm))) ==> top(vm) == old(fst(value.MultiplyVal(second(vm), top(vm))))
   ensures below: forall k int :: 0 <= k && k < soff(vm) - 1 ==> slot(vm, k) == old(slot(vm, k))
 
 func (*Thread).opExponentiateInt
   props C08 C06
   requires wfStack(vm) && soff(vm) >= 2 && foff(vm) <= soff(vm) - 2 && isInt(second(vm)) && wfv(top(vm))
   ensures sp: soff(vm) == old(soff(vm)) - 1 && vm.fp == old(vm.fp) && vm.stack == old(vm.stack)
-  ensures same: top(vm) == old(fst(value.ExponentiateVal(second(vm), top(vm))))
+  ensures sameS: old(isSmall(second(vm))) ==> top(vm) == old(fst(value.ExponentiateVal(second(vm), top(vm))))
+  ensures sameB: old(isBig(second(vm))) ==> top(vm) == old(fst(value.ExponentiateVal(second(vm), top(vm))))
   ensures below: forall k int :: 0 <= k && k < soff(vm) - 1 ==> slot(vm, k) == old(slot(vm, k))
 
 func (*Thread).opDivideInt
